@@ -13,8 +13,9 @@ Inductive slot := SFrame (f : frame) | SBad (g : frame).
 
 Inductive seekpoint := Defined (sample_offset : N) (frame_index : N) | Placeholder.
 
-(* Which source revision is modelled: Orig = the snapshot, Repaired = after the three fix: commits
-   (F-C06a, F-C06b, F-C07a).  The theorems are about Repaired; Orig is kept to state the defects. *)
+(* Which source revision is modelled: Orig = the snapshot, Repaired = after the fix: commits of this
+   area (F-C06a, F-C06b, F-C07a, and the channel reader's error path).  The theorems are about
+   Repaired; Orig is kept to state the defects. *)
 Inductive revision := Orig | Repaired.
 
 (* Everything that does not change while reading: the stream and the build. *)
@@ -35,18 +36,48 @@ Record dec := { d_rest : list slot; d_cur : N; d_buf : frame }.
 
 Definition dec_new (F : file) : dec := {| d_rest := f_slots F; d_cur := 0; d_buf := [] |}.
 
-(* decode.rs:1382 Decoder::read_frame over the abstract core *)
-Definition read_frame (F : file) (d : dec) : dec * res (option frame) :=
+(* decode.rs:1397-1438, the part of Decoder::read_frame after the end-of-stream decision:
+   read the next frame.  `remaining` = Some (total - current_sample) when the total is known.
+   - no frame left: with a known total FrameHeader::read hits EOF (error); with an unknown total an
+     EOF before the first header byte is the end of the stream (decode.rs:1409-1418);
+   - only the last block may have <= 14 samples: `block_size == remaining || block_size > 14`, else
+     Error::ShortBlock -- the header is consumed by then, the source position is inside a frame and
+     nothing sensible follows: the model drops the rest of the stream;
+   - a bad slot fails after read_subframes has written into self.buf; current_sample stays. *)
+Definition next_slot (F : file) (d : dec) (remaining : option N) : dec * res (option frame) :=
   match d_rest d with
-  | [] => (d, Ok None)
+  | [] => match remaining with
+          | None => (d, Ok None)
+          | Some _ => (d, Err EEof)
+          end
   | SFrame f :: r =>
-      (* self.current_sample += u64::from(u16::from(header.block_size)) *)
-      match u64_add (f_profile F) (d_cur d) (pcm_frames f) with
-      | Ok c => ({| d_rest := r; d_cur := c; d_buf := f |}, Ok (Some f))
-      | Err e => (d, Err e)
-      | Panic k => (d, Panic k)
-      end
+      let short := match remaining with
+                   | Some rem => negb ((pcm_frames f =? rem) || (14 <? pcm_frames f))
+                   | None => false
+                   end in
+      if short then ({| d_rest := []; d_cur := d_cur d; d_buf := d_buf d |}, Err EShortBlock)
+      else
+        (* self.current_sample += u64::from(u16::from(header.block_size)) *)
+        match u64_add (f_profile F) (d_cur d) (pcm_frames f) with
+        | Ok c => ({| d_rest := r; d_cur := c; d_buf := f |}, Ok (Some f))
+        | Err e => (d, Err e)
+        | Panic k => (d, Panic k)
+        end
   | SBad g :: r => ({| d_rest := r; d_cur := d_cur d; d_buf := g |}, Err ECrc16)
+  end.
+
+(* decode.rs:1382 Decoder::read_frame over the abstract core.  The end-of-stream decision
+   (decode.rs:1390-1396): with a known total, `total.checked_sub(current_sample)` -- None is
+   Error::TooManySamples, Some(0) is the end of the stream. *)
+Definition read_frame (F : file) (d : dec) : dec * res (option frame) :=
+  match f_total F with
+  | Some total =>
+      match checked_sub total (d_cur d) with
+      | None => (d, Err ETooManySamples)
+      | Some 0 => (d, Ok None)
+      | Some remaining => next_slot F d (Some remaining)
+      end
+  | None => next_slot F d None
   end.
 
 (* observations *)
@@ -205,7 +236,8 @@ Definition chan_new (F : file) : chan_reader := {| cr_dec := dec_new F; cr_consu
 
 (* decode.rs:952 FlacChannelReader::fill_buf.
    Orig resets `consumed` before read_frame (so after end-of-stream the last frame comes back:
-   F-C07a); Repaired resets it only when a frame arrived. *)
+   F-C07a, and after a decode error the frame that failed comes out on the next call); Repaired
+   resets it only when a frame arrived and marks the buffer consumed when decoding failed. *)
 Definition chan_fill_buf (F : file) (r : chan_reader) : chan_reader * out :=
   let d := cr_dec r in
   if cr_consumed r <? pcm_frames (d_buf d) then
@@ -225,7 +257,10 @@ Definition chan_fill_buf (F : file) (r : chan_reader) : chan_reader * out :=
         | Panic k => ({| cr_dec := d'; cr_consumed := 0 |}, OPanic k)
         end
     | Ok None => ({| cr_dec := d'; cr_consumed := kept |}, OChans (repeatN [] (f_channels F)))
-    | Err e => ({| cr_dec := d'; cr_consumed := kept |}, OErr e)
+    | Err e =>
+        (* Repaired: whatever a failed decode left in decoder.buf is marked consumed *)
+        ({| cr_dec := d';
+            cr_consumed := match f_rev F with Orig => 0 | Repaired => pcm_frames (d_buf d') end |}, OErr e)
     | Panic k => ({| cr_dec := d'; cr_consumed := kept |}, OPanic k)
     end.
 
